@@ -158,14 +158,15 @@ int lltd_port_send_frame(void *iface_ctx, const void *frame, size_t frame_len) {
     fprintf(vp_out, "%s %d ", fail ? "txfail" : "tx", it ? it->index : -1);
     vp_hex(vp_out, (const uint8_t *)frame, frame_len);
     fputc('\n', vp_out);
-    return fail ? -1 : 0;
+    return fail ? -1 : (vp_glob.send_len ? (int)frame_len : 0);    /* the contract: negative = refused; some ports answer with the byte count */
 }
 
 #define IFACE(ctx) ((vp_iface *)(ctx))
 
 #define VP_FAILRC (vp_glob.failrc ? vp_glob.failrc : -1)   /* what a failing getter returns: -1 like the ports of the repository, or any other non-zero code */
 int lltd_port_get_mtu(void *ctx, size_t *out) {
-    if (!ctx || !out || (IFACE(ctx)->getfail & GF_MTU)) return VP_FAILRC;
+    if (!ctx || !out) return VP_FAILRC;
+    if (IFACE(ctx)->getfail & GF_MTU) { if (vp_glob.mtu_clobber) *out = vp_glob.mtu_clobber; return VP_FAILRC; }   /* a failing query may have scribbled on its output */
     *out = IFACE(ctx)->mtu; return 0;
 }
 int lltd_port_get_icon_image(void **out_data, size_t *out_size) {
